@@ -92,18 +92,11 @@ TabWith(d, T, H(_, _), Sl(_, _)) ==
 SilentT(T, hay) == Silent(T.op, T.term, hay)
 Tab(d, T) == TabWith(d, T, Hit, SilentT)
 
-\* The part of a table a search under options O can consult (everything else blanked): two terms
-\* whose tables agree on it give the same search.
 HasSet(d) == \E s \in 1..Len(d) : d[s].k = "set"
 InSet(d, i) == i # Root /\ d[d[i].par].k = "set"
-Proj(d, tb, O) ==
-  [val  |-> [i \in DOMAIN tb.val |-> (O.vals \/ InSet(d, i)) /\ tb.val[i]],
-   key  |-> [i \in DOMAIN tb.key |-> O.keys /\ tb.key[i]],
-   ref  |-> [a \in DOMAIN tb.ref |-> O.refs /\ tb.ref[a]],
-   setv |-> O.vals /\ tb.setv,
-   ival |-> (O.vals \/ HasSet(d)) /\ tb.ival,
-   ikey |-> O.keys /\ tb.ikey,
-   iref |-> O.refs /\ tb.iref]
+\* Which entries a search under options O can consult: val[i] when values are searched or i is a Set member,
+\* key[i] with -k/-K, ref[a] with --refnames, setv when values are searched.  Two terms whose tables agree on
+\* those entries give the same search (MC_PathsSearch groups the vocabulary by them).
 
 (***************************************************************************)
 (* Paths                                                                   *)
